@@ -923,3 +923,202 @@ func inAnyLoopAfter(fn *ssa.Function, from, b *ssa.BasicBlock) bool {
 	}
 	return false
 }
+
+// ---- R102: the regular expression compiled for a like pattern ----
+
+func init() {
+	register(&Rule{ID: "R102", Name: "REGEX-PATTERN", Floor: 8,
+		Text: "the regexp branch of NewMatcher is evaluated (E5) for the eight worlds of (leading %, trailing %, caseSensitive) with the pattern abstracted to a token list [%] BODY [%] (BODY = five opaque bytes): string concatenation, slicing by constants and by len(x)-k, HasPrefix/HasSuffix and the helpers are interpreted; the string handed to regexp.Compile must be exactly [(?i)] [^] BODY [$] - the flag exactly when case-insensitive, an anchor exactly at each end without %, the % itself removed and no byte of BODY removed or kept twice (a pattern `%a.c` must match `xabc`; stripping two bytes would drop the `a`)",
+		Run:  runR102})
+}
+
+func runR102(c *Ctx) {
+	p := c.P
+	fn := p.anchorMatcherCtor()
+	if fn == nil || len(fn.Params) != 2 {
+		c.undecided("internal/strings.NewMatcher", "-", "not found")
+		return
+	}
+	patP := fn.Params[0]
+	for v := 0; v < 8; v++ {
+		fs, fe, cs := v&1 != 0, v&2 != 0, v&4 != 0
+		key := fmt.Sprintf("internal/strings.NewMatcher|regexp pattern leading%%=%v trailing%%=%v caseSensitive=%v", fs, fe, cs)
+		var initial []string
+		if fs {
+			initial = append(initial, "%")
+		}
+		initial = append(initial, "B1", "B2", "B3", "B4", "B5")
+		if fe {
+			initial = append(initial, "%")
+		}
+		toks := map[ssa.Value][]string{}
+		pe := &pathExec{fn: fn}
+		var tokOf func(v ssa.Value) ([]string, bool)
+		tokOf = func(v ssa.Value) ([]string, bool) {
+			v = pe.resolve(v)
+			if v == ssa.Value(patP) {
+				return initial, true
+			}
+			if ts, ok := toks[v]; ok {
+				return ts, true
+			}
+			if s, ok := constString(v); ok {
+				var out []string
+				for i := 0; i < len(s); i++ {
+					out = append(out, s[i:i+1])
+				}
+				return out, true
+			}
+			return nil, false
+		}
+		pe.lenOf = func(call *ssa.Call) (int64, bool) {
+			if ts, ok := tokOf(call.Call.Args[0]); ok {
+				return int64(len(ts)), true
+			}
+			return 0, false
+		}
+		bad := ""
+		var compiled []string
+		haveCompiled := false
+		atom := func(x ssa.Value) (bool, bool) {
+			switch t := x.(type) {
+			case *ssa.Parameter:
+				if t == fn.Params[1] {
+					return cs, true
+				}
+			case *ssa.Call:
+				o := calleeObj(t)
+				if isFuncNamed(o, "strings", "", "HasPrefix") || isFuncNamed(o, "strings", "", "HasSuffix") {
+					ts, ok := tokOf(t.Call.Args[0])
+					pre, okP := constString(t.Call.Args[1])
+					if !ok || !okP || len(pre) != 1 {
+						return false, false
+					}
+					if len(ts) == 0 {
+						return false, true
+					}
+					if isFuncNamed(o, "strings", "", "HasPrefix") {
+						return ts[0] == pre, true
+					}
+					return ts[len(ts)-1] == pre, true
+				}
+			case *ssa.BinOp:
+				for _, o := range []ssa.Value{t.X, t.Y} {
+					if call, ok := o.(*ssa.Call); ok && isFuncNamed(calleeObj(call), "regexp", "", "QuoteMeta") {
+						return t.Op == token.NEQ, true // the pattern contains regexp metacharacters
+					}
+				}
+				if cst, ok := t.Y.(*ssa.Const); ok && cst.IsNil() && isErrorType(t.X.Type()) {
+					return t.Op == token.EQL, true
+				}
+			}
+			return false, false
+		}
+		pe.oracle = func(pe *pathExec, cond ssa.Value) (bool, bool) { return pe.evalBool(cond, atom) }
+		pe.inline = func(callee *ssa.Function) bool {
+			return callee.Pkg == fn.Pkg && callee.Signature.Recv() == nil
+		}
+		pe.onInstr = func(pe *pathExec, in ssa.Instruction) {
+			switch t := in.(type) {
+			case *ssa.Phi:
+				if ts, ok := tokOf(pe.phi[t]); ok {
+					toks[t] = append([]string(nil), ts...)
+				}
+			case *ssa.BinOp:
+				if t.Op == token.ADD {
+					if bt, ok := t.Type().Underlying().(*types.Basic); ok && bt.Info()&types.IsString != 0 {
+						a, ok1 := tokOf(t.X)
+						b, ok2 := tokOf(t.Y)
+						if ok1 && ok2 {
+							toks[t] = append(append([]string(nil), a...), b...)
+						} else {
+							delete(toks, t)
+						}
+					}
+				}
+			case *ssa.Slice:
+				src, ok := tokOf(t.X)
+				if !ok {
+					delete(toks, t)
+					return
+				}
+				lo, hi := int64(0), int64(len(src))
+				if t.Low != nil {
+					k, ok := pe.intOf(t.Low, 0)
+					if !ok {
+						delete(toks, t)
+						return
+					}
+					lo = k
+				}
+				if t.High != nil {
+					k, ok := pe.intOf(t.High, 0)
+					if !ok {
+						delete(toks, t)
+						return
+					}
+					hi = k
+				}
+				if lo < 0 || hi > int64(len(src)) || lo > hi {
+					bad = fmt.Sprintf("the pattern of %d bytes is sliced [%d:%d] at %s: out of range", len(src), lo, hi, p.instrPos(t))
+					delete(toks, t)
+					return
+				}
+				toks[t] = append([]string(nil), src[lo:hi]...)
+			case *ssa.Call:
+				o := calleeObj(t)
+				switch {
+				case isFuncNamed(o, "strings", "", "TrimPrefix"), isFuncNamed(o, "strings", "", "TrimSuffix"):
+					ts, ok := tokOf(t.Call.Args[0])
+					cut, okC := constString(t.Call.Args[1])
+					if ok && okC && len(cut) == 1 {
+						out := append([]string(nil), ts...)
+						if isFuncNamed(o, "strings", "", "TrimPrefix") && len(out) > 0 && out[0] == cut {
+							out = out[1:]
+						}
+						if isFuncNamed(o, "strings", "", "TrimSuffix") && len(out) > 0 && out[len(out)-1] == cut {
+							out = out[:len(out)-1]
+						}
+						toks[t] = out
+					}
+				case isFuncNamed(o, "regexp", "", "Compile"), isFuncNamed(o, "regexp", "", "MustCompile"):
+					if ts, ok := tokOf(t.Call.Args[0]); ok {
+						compiled, haveCompiled = ts, true
+					} else {
+						bad = "the expression handed to regexp.Compile at " + p.instrPos(t) + " is not derived from the pattern by operations the evaluation tracks"
+					}
+				}
+			}
+		}
+		end, why := pe.run()
+		if _, ok := end.(*ssa.Return); !ok && bad == "" {
+			c.undecided(key, p.pos(fn.Pos()), "cannot evaluate: "+why)
+			continue
+		}
+		if bad != "" {
+			c.bad(key, p.pos(fn.Pos()), bad)
+			continue
+		}
+		if !haveCompiled {
+			c.undecided(key, p.pos(fn.Pos()), "no regular expression is compiled in this world")
+			continue
+		}
+		var want []string
+		if !cs {
+			want = append(want, "(", "?", "i", ")")
+		}
+		if !fs {
+			want = append(want, "^")
+		}
+		want = append(want, "B1", "B2", "B3", "B4", "B5")
+		if !fe {
+			want = append(want, "$")
+		}
+		got, exp := strings.Join(compiled, ""), strings.Join(want, "")
+		if got == exp {
+			c.ok(key, p.pos(fn.Pos()), "compiles "+got)
+		} else {
+			c.bad(key, p.pos(fn.Pos()), fmt.Sprintf("compiles %s where %s is required (B1..B5 stand for the pattern between the wildcards)", got, exp))
+		}
+	}
+}
